@@ -109,6 +109,7 @@ struct Engine {
 	virtual void finish() {}                           // main context, task 0, after all tasks
 	virtual void cleanup() {}                          // always called (even after violation)
 	virtual void on_access(int task, const void *addr, size_t n, bool write, bool atomic) {}
+	virtual void on_rmw(int task, const void *addr, size_t n) {} // after a successful atomic read-modify-write by code under test
 	virtual bool panic_is_stop(const char *msg) { return false; } // documented precondition stop?
 	virtual const char *op_name(int kind) = 0;
 	virtual int op_kind(const std::string &name) = 0;
